@@ -56,6 +56,7 @@ LINE_KINDS = ('NL', 'NEWLINE')
 KIND = {tokenize.NAME: 'NAME', tokenize.NUMBER: 'NUMBER', tokenize.OP: 'OP', tokenize.STRING: 'STRING'}
 SKIP = (tokenize.ENCODING, tokenize.ENDMARKER, tokenize.INDENT, tokenize.DEDENT)
 JOBS, MIN_CHUNK = 4, 3000   # few big TLC jobs beat many small ones here (measured: 4 x 11 000 traces 9 s, 15 x 3 000 36 s)
+BATCH = 40000               # behaviours collected over instances before one replay + trace validation round
 INPUT_CLAUSES = ('input_grammar', 'input_tokenization', 'input_value', 'not_ready')
 
 
@@ -381,6 +382,7 @@ def run(rep):
                        'TLC 1.8 / tla2tools']
     rep.exhaustive = True
     seen = set()
+    pending = []
     for cfg, simulate in INSTANCES[rep.tier]:
         if simulate:
             res = core.tlc('MC_Tokens', cfg, workers=1, tag='c13', simulate=simulate, depth=24, seed=rep.seed)
@@ -394,15 +396,20 @@ def run(rep):
         if res.violated:
             raise core.MachineryError('spec invariant %s violated in %s' % (res.violated, cfg))
         rep.add_tlc(res, ('simulate ' if simulate else 'exhaustive ') + cfg)
-        behs = []
+        fresh = 0
         for b in core.json_of_printed(res, 'BEH'):
             k = core.canonical(b)
             if k not in seen:
                 seen.add(k)
-                behs.append(b)
-        if not behs:
-            raise core.MachineryError('TLC emitted no behaviours for ' + cfg)
-        judge(rep, behs)
+                pending.append(b)
+                fresh += 1
+        if not fresh:
+            raise core.MachineryError('TLC emitted no (new) behaviours for ' + cfg)
+        if len(pending) >= BATCH:       # judge the behaviours of several instances with one set of TLC jobs
+            judge(rep, pending)
+            pending = []
+    if pending:
+        judge(rep, pending)
 
 
 def replay(path):
